@@ -1,14 +1,14 @@
 CONSTANTS
   NRows = 3
   NCols = 2
-  Kinds = {"ranked", "lru"}
+  Kinds = {"lru"}
   Sizes = {2}
   Mutexes = {TRUE}
   MutexSizes = {2}
   Ops = {"ImportSet", "RecalcTopN"}
   Inits = "few"
   BRows = {1, 2, 3}
-  BSets = {{1}, {2}, {1, 2}}
+  BSets = {{1}, {2}}
   MaxRect = 1
   BIds = "whole"
   Thrs = {3}
